@@ -126,7 +126,7 @@ def _parse_string_result(out):
     return body.replace('""', '"')
 
 
-def coq_eval_lines(tag, imports, defs, exprs, timeout=900, shard=250, keep=False):
+def coq_eval_lines(tag, imports, defs, exprs, timeout=900, shard=250, keep=False, big_stack=True):
     """Evaluate Gallina expressions of type `string` inside coqc.
 
     imports : list of module names (`TV.Model.Fusion` ...)
@@ -165,7 +165,7 @@ def coq_eval_lines(tag, imports, defs, exprs, timeout=900, shard=250, keep=False
             name, path, idxs = pending.pop(0)
             pr = subprocess.Popen(["timeout", str(timeout), "coqc", "-q", "-Q", COQDIR, "TV", "-w", "-all", path],
                                   cwd=GENDIR, stdout=subprocess.PIPE, stderr=subprocess.STDOUT, text=True,
-                                  preexec_fn=_big_stack)
+                                  preexec_fn=_big_stack if big_stack else None)
             running.append((pr, name, path, idxs))
         still = []
         for pr, name, path, idxs in running:
